@@ -28,14 +28,43 @@ def gen_calls(r, depth, budget, ncalls):
     for _ in range(ncalls):
         if budget[0] <= 0:
             break
-        budget[0] -= 2
-        out.append("C(%s)" % gen_items(r, depth, budget))
+        if r.random() < 0.15:
+            # the real API function coap_handle_event(): wrapper + keep-ret macro + event handler
+            budget[0] -= 4
+            inner = gen_calls(r, depth - 1, budget, r.choice([0, 1, 1, 2])) if depth > 0 else ""
+            out.append("E(%s)" % inner)
+        else:
+            budget[0] -= 2
+            out.append("C(%s)" % gen_items(r, depth, budget))
     return "".join(out)
 
 
 def prog_ops(p):
     """number of primitive steps of a program token"""
-    return sum(2 for c in p if c in "CkKrRiw")
+    return sum(4 if c == "E" else 2 for c in p if c in "CEkKrRiw")
+
+
+def expand_real_calls(p):
+    """E(x) -> C(K(x)) : the same program without the real API function (for the driver build that
+    does not link the library)"""
+    out = []
+    stack = []
+    for c in p:
+        if c == "E":
+            out.append("C(K")
+            stack.append("pendingE")
+        elif c == "(":
+            out.append("(")
+            if stack and stack[-1] == "pendingE":
+                stack[-1] = "E"
+            else:
+                stack.append("(")
+        elif c == ")":
+            k = stack.pop()
+            out.append("))" if k == "E" else ")")
+        else:
+            out.append(c)
+    return "".join(out)
 
 
 def gen_case(r):
@@ -67,13 +96,17 @@ def gen_case(r):
 
 # small programs whose interleavings are enumerated exhaustively (2 threads)
 CATALOGUE = ["C(w)", "C(k()w)", "C(K(C(w)))", "C(r()w)", "C(r(C(w)))", "C(i()w)", "C(k(C(r(C(w)))))",
-             "C(w)C(w)", "C(R(C(K()))w)"]
+             "C(w)C(w)", "C(R(C(K()))w)", "E(C(w))"]
 
 
-def interleavings(a, b, limit=None):
-    """all schedules that run both threads to completion when nobody ever blocks (blocked
-    attempts are inserted by the drain order anyway); plus schedules with repeated attempts"""
+def interleavings(a, b, limit=None, rng=None):
+    """schedules over {0,1} with exactly as many entries per thread as it has primitive steps
+    (an entry of a blocked thread is a blocked attempt; the drain completes the run).
+    All of them when their number is <= limit (or limit is None), otherwise `limit` of them:
+    the first limit/2 in lexicographic order and limit/2 drawn with rng."""
+    import math
     na, nb = prog_ops(a), prog_ops(b)
+    total = math.comb(na + nb, na)
     count = 0
     for pos in itertools.combinations(range(na + nb), na):
         s = ["1"] * (na + nb)
@@ -81,5 +114,10 @@ def interleavings(a, b, limit=None):
             s[p] = "0"
         yield ",".join(s)
         count += 1
-        if limit and count >= limit:
-            return
+        if limit is not None and total > limit and count >= limit // 2:
+            break
+    if limit is not None and total > limit:
+        for _ in range(limit - count):
+            s = ["0"] * na + ["1"] * nb
+            rng.shuffle(s)
+            yield ",".join(s)
